@@ -18,6 +18,7 @@
 package datasource
 
 import (
+	"bytes"
 	"database/sql"
 	"reflect"
 )
@@ -120,7 +121,26 @@ func DeepEqual(x, y interface{}) bool {
 		return flx == fly
 	}
 
+	// text and binary values are equal when their content is, whether held as string, []byte or sql.RawBytes
+	bx, okx := parseBytesIfOk(typx)
+	by, oky := parseBytesIfOk(typy)
+	if okx && oky {
+		return bytes.Equal(bx, by)
+	}
+
 	return reflect.DeepEqual(typx.Interface(), typy.Interface())
+}
+
+func parseBytesIfOk(val reflect.Value) ([]byte, bool) {
+	switch val.Kind() {
+	case reflect.String:
+		return []byte(val.String()), true
+	case reflect.Slice:
+		if val.Type().Elem().Kind() == reflect.Uint8 {
+			return val.Bytes(), true
+		}
+	}
+	return nil, false
 }
 
 func parseFloatIfOk(val reflect.Value) (float64, bool) {
